@@ -508,7 +508,16 @@ def _as_completed(
         except StopIteration:
           exhausted = True
       if tasks:
-        running_tasks.append(worker.submit(tasks.pop()))
+        task = tasks.pop()
+        try:
+          running_tasks.append(worker.submit(task))
+        except RuntimeError:
+          # The worker went stale between being picked and the submission:
+          # keep the task for another worker.
+          if worker.is_alive:
+            raise
+          preferred.discard(worker)
+          tasks.append(task)
 
     # Check the results of the running tasks and retry timeout tasks.
     still_running: list[courier_worker.Task] = []
